@@ -1,3 +1,5 @@
+//go:build go1.23
+
 package gjkr
 
 // Lockstep adversarial driver for the beacon DKG (properties C01 and C02).
@@ -138,11 +140,15 @@ func c12SendingPhaseIndex(p string) int {
 }
 
 type c12Run struct {
-	n, t      int
-	members   []*c12Member // index i-1
-	seatOps   []int
-	plan      []string // human readable behaviours that fired
-	fired     map[string]bool
+	n, t    int
+	members []*c12Member // index i-1
+	seatOps []int
+	plan    []string // human readable behaviours that fired
+	fired   map[string]bool
+	// wire-level malformations are drawn in a quarter of the runs only: a
+	// message malformed on the wire is dropped by everybody, which ends the
+	// sender's part in the run and hides everything it would do later
+	wire      bool
 	honestIdx []group.MemberIndex
 	session   string
 }
@@ -308,6 +314,7 @@ func c12Setup(t *rapid.T, cfg c12Config) *c12Run {
 			run.honestIdx = append(run.honestIdx, m.idx)
 		}
 	}
+	run.wire = rapid.IntRange(0, 3).Draw(t, "wireMalformations") == 0
 	c12DrawScenario(t, run)
 	return run
 }
@@ -337,7 +344,7 @@ func c12DrawScenario(t *rapid.T, run *c12Run) {
 		run.fired["scenario:two-reconstructions-different-revealers"] = true
 		return
 	}
-	if len(corrupt) < 2 || rapid.IntRange(0, 3).Draw(t, "scenario") != 0 {
+	if len(corrupt) < 2 || rapid.IntRange(0, 2).Draw(t, "scenario") != 0 {
 		return
 	}
 	perm := rapid.Permutation(corrupt).Draw(t, "scenarioRoles")
@@ -1223,7 +1230,7 @@ func (r *c12Run) execute(t *rapid.T) {
 				if err != nil {
 					continue // not representable on the wire
 				}
-				if m.corrupt {
+				if m.corrupt && r.wire {
 					b = r.wireMutate(t, m, msg.Type(), b)
 				}
 				queues[m.idx] = append(queues[m.idx], c12Wire{typ: msg.Type(), bytes: b, pubKey: m.pubKey, from: m.idx})
